@@ -64,6 +64,35 @@ def tls_pump(n: int, x: int, kind: int) -> bool:
     return V(tcp.closed >= 1 and after == 0 and close_seen and _same(plain_, want))
 
 
+HW = [0, 65536, 1 << 20]
+
+
+def tls_backpressure(n: int, x: int, kind: int, hw: int, drains: int) -> bool:
+    """
+    pre: 0 <= n <= PUMP_MAX and 0 <= x <= n and x <= 70000
+    pre: 0 <= kind <= 1 and 0 <= hw < len(HW) and 0 <= drains <= 2
+    post: _
+    """
+    # a slow reader: the TCP transport reports its buffer above the high-water mark (pause_writing) while the response
+    # is being pumped and the reader catches up (resume_writing) only later -- possibly only after the server has
+    # already asked for the connection to be closed; every byte and the close_notify must still reach the peer
+    resp, want = _resp(n, x, kind)
+    outer, tcp, loop, conn, made = make_tls(lambda r: resp, high_water=HW[hw])
+    feed(outer, tcp, [("hs",)])
+    if drains >= 1:
+        tcp.drain()
+    feed(outer, tcp, [("app", b"gemini://h/\r\n")])
+    loop.run_ready()
+    if drains >= 2:
+        tcp.drain()
+        loop.run_ready()
+    tcp.drain()                       # the reader eventually catches up; asyncio then reports the connection lost
+    loop.run_ready()
+    outer.connection_lost(None)
+    plain_, close_seen, after, all_out = conn.delivered(tcp)
+    return V(tcp.closed >= 1 and close_seen and _same(plain_, want))
+
+
 BIG = [13 * 1024 * 1024 + 1, 24 * 1024 * 1024 + 5, 64 * 1024 * 1024, MAXFILE]
 
 
@@ -143,6 +172,10 @@ OBLIGATIONS = [
        symbolic="bytes body of n bytes or text body of n characters with x 2-byte characters, n in 0..%d" % PUMP_MAX,
        functions=FN, stubs=["StubTLSConn", "FakeTransport", "SymBuf/FillStr", "MiniLoop"],
        outside=["body lengths above %d on the PyOpenSSL pump" % PUMP_MAX]),
+    Ob("tls_backpressure", tls_backpressure, quick=300, thorough=900,
+       symbolic="body length 0..300 000 (quick) / 0..2 MiB, bytes or text with x two-byte characters, high-water mark (0 / 64 KiB / 1 MiB), "
+                "moments at which the slow reader catches up (incl. only after close)",
+       functions=FN, stubs=["StubTLSConn", "FakeTransport with pause_writing/resume_writing (asyncio flow-control contract)", "MiniLoop"]),
     Ob("tls_pump_large", tls_pump_large, quick=600, thorough=2400,
        symbolic="body of 13 MiB+1 or 24 MiB+5 bytes (quick), additionally 64 MiB and max_file_size = 100 MiB (thorough), bytes or text with 7 two-byte characters; by symbolic index", note="discrete: concrete sizes",
        functions=FN, stubs=["StubTLSConn", "FakeTransport", "SymBuf", "MiniLoop"],
